@@ -112,6 +112,18 @@ META["C19"] = ("TLC trace validation of reader/serialize/link/load outcomes on a
          "Random inputs, mutated valid serializations and abstract objects that break the writers' invariants (written by the harness's own writers of both formats) are fed to the real readers; every accepted object is projected, re-serialized, read back, loaded, stepped, queried and linked with assembled partners in both orders and with itself, all under catch_unwind. The specification has no action for a panic; link outcomes are compared with Linker!Link, which is total on arbitrary abstract objects.",
          "The byte/text grammars are not transcribed; which inputs are accepted is not predicted. Harness profile has overflow checks on.", "5 (C19)")
 
+META["C03"] = ("TLC runs the specification's own tokenizer and statement grammar (spec/Lexer.tla, spec/Grammar.tla) on the source bytes and compares with the statements and spans returned by the real parser; written statements and renderer positions compared too; metamorphic pairs (TV_Parse)",
+         "Each generated statement list is rendered twice with independent random surface syntax; the real parse_ast must return exactly the written statements with spans where the text was put, and exactly what Grammar!ParseProgram reads from the bytes; both renderings must assemble to the same image and labels.",
+         "Label names avoid spellings the lexer reads as numbers or registers (x1.., R1..), as the grammar requires.", "5 (C03)")
+META["C04"] = ("TLC predicts the exact outcome of every short string-literal text with Lexer!ScanStr/Grammar and checks the outcome class (no Panic record, in-bounds single span) of random, mutated and edge-case inputs to the real parser (TV_Parse)",
+         "All texts `.stringz \"s` for s over an 8-symbol alphabet up to length 4 (thorough 6), plus targeted edge cases, random Unicode strings and byte-mutated programs through the real parse_ast under catch_unwind.",
+         "Arbitrary inputs are produced by seeded generators in the harness; the specification is the oracle.", "5 (C04)")
+META["C05"] = ("TLC computes the written value of every numeric/register spelling (Lexer!Literal, NumTok, RegTok) and the per-field acceptance (Offsets!FitsS/FitsU) and compares with the real lexer and parser (TV_Parse)",
+         "Bare tokens through the real lexer and operands of every field through parse_ast; quick: values around powers of two and limits in 15 notations; thorough: every integer in [-70000, 140000].",
+         "Malformed spellings are conformance only.", "5 (C05)")
+META["C36"] = ("TLC compares the statement reparsed by the real parser from the real Display text with the original statement (without spans), and reads the printed text with Grammar!ParseProgram (TV_Parse)",
+         "Every statement of parsed generated programs plus a fixed list of boundary forms.", "Strings restricted as the property states.", "5 (C36)")
+
 def main():
     props = [json.loads(l) for l in open(os.path.join(ROOT, "properties.jsonl"))]
     done = sorted(check.CHECKS)
